@@ -168,8 +168,12 @@ def sim_open(file, mode='r', buffering=-1, encoding=None, errors=None, newline=N
     if path is None or not path.startswith(PREFIX):
         f = _real_open(file, mode, buffering, encoding, errors, newline, closefd, opener)
         hook = DISK.real_hook
-        if hook is not None and path is not None and path.startswith(hook[0]):
-            return hook[1](f, path, mode)
+        if hook is not None and path is not None:
+            # a relative spelling names a file under the hooked directory just as well (resolved against
+            # the working directory at open time, like the kernel does)
+            full = path if os.path.isabs(path) else os.path.abspath(path)
+            if full.startswith(hook[0]):
+                return hook[1](f, full, mode)
         return f
     flags = _parse_mode(mode)
     disk = DISK
